@@ -14,7 +14,7 @@ RULE = ("for every configuration of the lattice (16 flag sets x velocity_bins x 
         "step-size sets x time-signature ranges) the WHOLE vocabulary is enumerated: ids, sizes, encode/decode both ways and "
         "detokenise on every member; closure: every token emitted by tokenise on a pool of regular and irregular inputs is a "
         "member; distinct = distinct (configuration, member); non-trivial = configuration differs from the two the suite builds")
-SCALE = ('PPQN 96/480/960 configurations with step sizes and note values of that resolution (token fields of four digits) and a six-bar piece written at that resolution')
+SCALE = ('PPQN 96/480/960 configurations with step sizes and note values of that resolution (token fields of four digits) and a six-bar piece written at that resolution; step / value lists naming an entry twice; note values longer than the longest bar; explicitly stated default signatures under both ranges; token and id streams handed over as tuple / generator / iterator / map')
 ASSUMPTIONS = ["a tokenise call that raises TokenisationException is a rejection, not a violation",
                "entries of step_sizes / note_values are Python ints as the signature says (list[int]); lists may be unsorted and "
                "may name an entry twice"]
